@@ -32,7 +32,7 @@ EXTRA_COVERAGE = {'exhaustive': lambda tier: tier == 'thorough',
 
 def floors(tier):
     return {'pairs:distinct-accepted': 300, 'pairs:collision-refused': 5,
-            'sets:lifecycle': 15, 'dup-output:refused': 5, 'stemfam:accepted': 10, 'sibling:accepted': 20, 'distinct_nontrivial': 300}
+            'sets:lifecycle': 15, 'dup-output:refused': 5, 'stemfam:accepted': 10, 'sibling:accepted': 20, 'abs:outputs-inside-builddir': 8, 'distinct_nontrivial': 300}
 
 
 def all_paths():
